@@ -16,6 +16,7 @@ import re
 import featlib
 from featlib import Check, walk, render, is_call, rel
 import lafem_rules as L
+from lafem_rules import documented_clone_table, classify, targs, extracted_tables, cross_clone_rules
 
 LAFEM = featlib.repo_path("kernel/lafem/")
 FILES = LAFEM + "|" + featlib.repo_path("kernel/util/memory_pool") + "|/verif/tu/c0"
@@ -60,6 +61,12 @@ RULES = {
         "+-(D - 1) +- col +- row [+- offset] with exactly one matrix-dimension atom D states offset = col - row + D - 1, and D must be the "
         "row count - in the graph constructor, CSR->Banded (both passes), operator(), extract_diag, Banded->CSR and the kernels alike "
         "(sibling agreement). Broken (columns instead of rows) -> every rectangular matrix converts with shifted bands.", 9),
+    "C02.alias-safe-transpose": (
+        "Arch::Transpose::value_generic(r, x, rows_x, columns_x) is called with r == x (DenseMatrix::transpose_inplace passes this->elements() "
+        "twice; transpose(x) with this == &x): on every path on which r may still alias x (the branch conditions do not imply r != x) a loop "
+        "nest must not store r[f] and load x[g] with f != g as polynomials in the loop variables - the element written in one iteration is "
+        "read in another one (r[j*rows+i] = x[i*cols+j] overwrites its own source whenever r == x, square or not); such loops must read "
+        "from the temporary copy. Broken -> in-place transposition mirrors one triangle into the other.", 2),
     "C02.E2.local-array-index": (
         "conversion code that builds its result in local DenseVector arrays: a subscript `p[v + c]` of such an array (p = V.elements(), V "
         "constructed with extent E) by the variable of a counting loop `for(v = ..; v < B; ++v)` needs E - B - c >= 0 as polynomials over "
@@ -74,7 +81,10 @@ RULES = {
         "row for every CSCR matrix with empty rows.", 12),
     "C02.size-pairing": (
         "every array pushed into _elements/_indices is paired, in order, with a push of the same extent into _elements_size/"
-        "_indices_size. Broken -> clone(Deep/Weak), cross-type convert copy a wrong number of entries.", 80),
+        "_indices_size; at every exit the size vector has exactly as many entries as its pointer vector (symbolic lengths through "
+        "clear/assign/move/push, shared interpreter with C20); a re-seated slot V.at(k) = allocate_memory(E) gets V_size.at(k) = E. "
+        "Broken -> clone(Deep/Weak), cross-type convert, format, copy work on a wrong number of entries (e.g. after rebuilding a matrix "
+        "from a layout with another number of non-zeros).", 300),
     "C02.clone-table": (
         "for each CloneMode the arrays of Container::clone's result alias the source exactly as documented at the enum "
         "(kernel/lafem/base.hpp): Shallow share/share, Layout share/fresh, Weak share/fresh+copy, Deep copy/copy, Allocate fresh/fresh; "
@@ -492,6 +502,137 @@ def extent_rules(ck, fam, seen_fail):
 
 
 # -------------------------------------------------------------------------------------------------
+# alias safety of the transpose kernel
+# -------------------------------------------------------------------------------------------------
+
+def alias_kernel_rules(ck, fam, facts, seen_fail):
+    kernels = [f for f in facts.functions if f.qn.endswith("Arch::Transpose::value_generic") and f.body is not None and f.tk in ("inst", "plain", "spec")]
+    if not kernels:
+        ck.incomplete("C02.alias-safe-transpose", "Arch::Transpose::value_generic is not instantiated in %s" % facts.tu)
+        return
+    # alias evidence: call sites of Arch::Transpose::value* passing the same array for r and x
+    evidence = []
+    for fn in facts.functions:
+        if fn.body is None:
+            continue
+        for c in fn.calls(callee_re=r"Arch::Transpose::value(_generic)?$"):
+            args = dict(zip(c.get("pn") or [], c.get("a") or []))
+            if "r" in args and "x" in args and render(L.unwrap(args["r"])) == render(L.unwrap(args["x"])) and L.unwrap(args["r"]).get("dk") != "param":
+                evidence.append("%s (%s:%s)" % (L.short(fn.qn), rel(fn.file), c.get("l")))
+    if not evidence:
+        ck.note("C02.alias-safe-transpose: no call site passes the same array for r and x any more; the kernel is not required to be alias safe")
+        return
+    for fn in kernels:
+        it = L.Interp(fam, fn)
+        pr = next((p for p in fn.params if p["n"] == "r"), None)
+        px = next((p for p in fn.params if p["n"] == "x"), None)
+        if pr is None or px is None:
+            ck.incomplete("C02.alias-safe-transpose", "%s: parameters r / x not found" % fn.full)
+            continue
+        dr, dx = pr["d"], px["d"]
+
+        def resolve(c):
+            c = L.unwrap(c)
+            if c.get("k") == "Ref" and c.get("dk") == "local":
+                d = it.localdefs.get(c["d"])
+                if d is not None and not it.reassigned(c["d"]):
+                    return resolve(d)
+            return c
+
+        def rel_of(c):
+            """'eq' / 'ne' if c is r == x / r != x"""
+            c = resolve(c)
+            if c.get("k") == "Bin" and c.get("op") in ("==", "!="):
+                ds = {L.unwrap(c["lhs"]).get("d"), L.unwrap(c["rhs"]).get("d")}
+                if ds == {dr, dx}:
+                    return "eq" if c["op"] == "==" else "ne"
+            return None
+
+        def implies(c, truth, what):
+            """does (c == truth) imply r (what = 'eq'|'ne') x ?"""
+            c = resolve(c)
+            if c.get("k") == "Un" and c.get("op") == "!":
+                return implies(c["e"], not truth, what)
+            r0 = rel_of(c)
+            if r0 is not None:
+                return (r0 == what) if truth else (r0 != what)
+            if c.get("k") == "Bin" and c.get("op") in ("&&", "||"):
+                a, b = implies(c["lhs"], truth, what), implies(c["rhs"], truth, what)
+                conj = (c["op"] == "&&") == truth      # (A&&B) true, or (A||B) false: both sides known
+                return (a or b) if conj else (a and b)
+            return False
+
+        nloop = [0]
+
+        def accesses(loop):
+            stores, loads = [], []
+            lhs_ids = set()
+            for n in walk(loop):
+                if n.get("k") == "Assign":
+                    l = L.unwrap(n["lhs"])
+                    if l.get("k") == "Index" and L.unwrap(l["b"]).get("d") == dr:
+                        stores.append(l)
+                        lhs_ids.add(id(l))
+            for n in walk(loop):
+                if n.get("k") == "Index" and id(n) not in lhs_ids and L.unwrap(n["b"]).get("d") in (dx, dr):
+                    loads.append(n)
+            return stores, loads
+
+        def visit(n, alias):
+            if n is None:
+                return
+            k = n.get("k")
+            if k == "Block":
+                for s_ in n.get("s", []):
+                    visit(s_, alias)
+                return
+            if k == "If":
+                c = n["c"]
+                ta = "yes" if implies(c, True, "eq") else "no" if implies(c, True, "ne") else alias
+                fa = "yes" if implies(c, False, "eq") else "no" if implies(c, False, "ne") else alias
+                if alias == "no":
+                    ta = fa = "no"
+                visit(n.get("then"), ta)
+                visit(n.get("else"), fa)
+                return
+            if k in ("For", "While", "Do", "ForRange"):
+                stores, loads = accesses(n)
+                if not stores:
+                    return
+                i = nloop[0]
+                nloop[0] += 1
+                sub = "loop%d" % i
+                key = L.fkey(fn)
+                if alias == "no":
+                    ck.ob("C02.alias-safe-transpose", "%s/%s" % (key, sub), True,
+                          "loop at line %s is only reached with r != x" % n.get("l"), fn.file, n.get("l"), trivial=True)
+                    return
+                haz = []
+                for s_ in stores:
+                    f = poly(it, s_["idx"])
+                    for l in loads:
+                        g = poly(it, l["idx"])
+                        if f != g:
+                            haz.append((render(s_)[:40], render(l)[:40]))
+                ok = not haz
+                det = ("loop at line %s is reached with r %s x (callers passing the same array: %s): " % (n.get("l"), "==" if alias == "yes" else "possibly ==", "; ".join(evidence[:2]))) + \
+                      ("it loads no element of x/r other than the one it stores" if ok else
+                       "it stores %s and loads %s - with r == x the store destroys an element that another iteration still has to read; the loop must read from the temporary copy" % haz[0])
+                if not ok:
+                    if ("alias", key, sub) in seen_fail:
+                        return
+                    seen_fail.add(("alias", key, sub))
+                ck.ob("C02.alias-safe-transpose", "%s/%s" % (key, sub), ok, det, fn.file, n.get("l"), sample={"function": fn.full, "detail": det})
+                return
+            for key_ in ("then", "else", "body", "s"):
+                c = n.get(key_)
+                if isinstance(c, dict) and "k" in c:
+                    visit(c, alias)
+
+        visit(fn.body, "may")
+
+
+# -------------------------------------------------------------------------------------------------
 # E2 (light): loop-variable subscripts of locally built arrays; CSCR used-row kinds
 # -------------------------------------------------------------------------------------------------
 
@@ -900,58 +1041,6 @@ def banded_rules(ck, fam, facts, roles_tab, seen_fail):
 # E13: clone table / convert sharing
 # -------------------------------------------------------------------------------------------------
 
-DOC_PHRASES = [
-    # (regex on the doxygen text of the enumerator, (indices, elements))
-    (r"^share index and data arrays$", ("shared", "shared")),
-    (r"^share index arrays, allocate new data array$", ("shared", "fresh")),
-    (r"^share index arrays, allocate new data array and copy content$", ("shared", "fresh+copy")),
-    (r"^allocate new index and data arrays and copy content$", ("fresh+copy", "fresh+copy")),
-    (r"^allocate new index and data arrays$", ("fresh", "fresh")),
-]
-
-
-def documented_clone_table():
-    """{mode: (value, indices, elements)} parsed from the enumerator comments in kernel/lafem/base.hpp"""
-    p = featlib.repo_path("kernel/lafem/base.hpp")
-    txt = open(p).read()
-    m = re.search(r"enum\s+class\s+CloneMode\s*\{(.*?)\}", txt, re.S)
-    if not m:
-        return None, "enum class CloneMode not found in kernel/lafem/base.hpp"
-    out = {}
-    val = -1
-    for line in m.group(1).splitlines():
-        mm = re.match(r"\s*(\w+)\s*(?:=\s*(\d+))?\s*,?\s*/\*\*<\s*(.*?)\s*\*/", line)
-        if not mm:
-            if line.strip():
-                return None, "unparsed enumerator line %r" % line.strip()
-            continue
-        val = int(mm.group(2)) if mm.group(2) else val + 1
-        doc = mm.group(3).strip().lower().rstrip(".")
-        cls = None
-        for rx, c in DOC_PHRASES:
-            if re.match(rx, doc):
-                cls = c
-        if cls is None:
-            return None, "documentation of CloneMode::%s (%r) is not one of the transcribed phrases" % (mm.group(1), doc)
-        out[mm.group(1)] = (val, cls[0], cls[1])
-    return out, None
-
-
-def classify(vs, flag, it, obj_kind, srcname):
-    """shared | fresh | fresh+copy | other(<why>) for the exit state of one pointer vector"""
-    if vs.own != "OWN" or flag != "F":
-        return "other(%r, flag %s)" % (vs, flag)
-    org = set(vs.origin)
-    if org == {"copy:" + srcname, "counted"}:
-        return "shared"
-    if org == {"alloc"}:
-        if vs.filled == {"copy:" + srcname}:
-            return "fresh+copy"
-        if not vs.filled:
-            return "fresh"
-    return "other(%r)" % (vs,)
-
-
 def copy_extent_ok(it, kind):
     """every content copy into this._<kind> uses the recorded extent of the slot it fills"""
     bad = []
@@ -1017,224 +1106,6 @@ def clone_rules(ck, fam, seen_fail):
                   fn.file, fn.line, sample={"mode": mode, "documented": [want_i, want_e], "extracted": [got_i, got_e]})
 
 
-def extracted_tables(fam):
-    """-> (clone table {mode value: (indices, elements)} of the same-type Container::clone,
-           assign table {(sameDT, sameIT): {kind: shared|fresh+copy|...}}) extracted from the code; None entries on failure"""
-    doc, err = documented_clone_table()
-    ctab, atab = {}, {}
-    fns = [f for f in fam.functions() if f.name == "clone" and L.short(f.cls) == "Container" and len(f.params) == 2
-           and f.full.count("<") == f.cls.count("<")]
-    if doc and fns:
-        fn = fns[0]
-        for mode, (val, _, _) in doc.items():
-            it = L.Interp(fam, fn, env={fn.params[1]["n"]: val}).run()
-            st = None
-            for s_, _ in it.exits:
-                st = L.join_state(st, s_)
-            if it.unknown or st is None:
-                continue
-            fl = st.get(("flag", "this"))
-            ctab[val] = (classify(st[("this", "indices")], fl, it, "indices", fn.params[0]["n"]),
-                         classify(st[("this", "elements")], fl, it, "elements", fn.params[0]["n"]))
-    for fn in [f for f in fam.functions() if f.name == "assign" and L.short(f.cls) == "Container" and len(f.params) == 1]:
-        ca, fa = targs(fn.cls), targs(fn.full)
-        if len(ca) != 2 or len(fa) != 2:
-            continue
-        it = L.Interp(fam, fn).run()
-        st = None
-        for s_, _ in it.exits:
-            st = L.join_state(st, s_)
-        if it.unknown or st is None:
-            continue
-        fl = st.get(("flag", "this"))
-        atab[(ca[0] == fa[0], ca[1] == fa[1])] = {k: classify(st[("this", k)], fl, it, k, fn.params[0]["n"]) for k in ("elements", "indices")}
-    return ctab, atab
-
-
-def cross_clone_rules(ck, fam, seen_fail):
-    doc, err = documented_clone_table()
-    if doc is None:
-        ck.incomplete("C02.clone-cross-type", err)
-        return
-    ctab, atab = extracted_tables(fam)
-    fns = [f for f in fam.functions() if f.name == "clone" and L.short(f.cls) == "Container" and len(f.params) == 2
-           and f.full.count("<") > f.cls.count("<")]
-    combos = set()
-    for fn in fns:
-        ca, fa = targs(fn.cls), targs(fn.full)
-        if len(ca) != 2 or len(fa) != 2:
-            ck.incomplete("C02.clone-cross-type", "template arguments of %s not recognised" % fn.full)
-            continue
-        same = (ca[0] == fa[0], ca[1] == fa[1])
-        combos.add(same)
-        src = "%s#%s" % (fn.params[0]["n"], fn.params[0]["d"])
-        modep = fn.params[1]["n"]
-        for mode, (val, want_i, want_e) in sorted(doc.items(), key=lambda kv: kv[1][0]):
-            it = L.Interp(fam, fn, env={modep: val})
-            rel_ = {}          # object -> {kind: 'shared' (aliases the source) | 'fresh' | 'none'}
-            problems = []
-
-            def call_effect(n):
-                nm = n.get("n")
-                o = L.obj_id(n.get("obj")) if n.get("obj") is not None else "this"
-                if o is None or L.short(n.get("ccls", "")) != "Container":
-                    return False
-                args = n.get("a") or []
-                a0 = L.obj_id(args[0]) if args else None
-                if nm == "assign" and len(args) == 1 and a0 is not None:
-                    callee = fam.callee_fn(fn, n)
-                    if callee is None:
-                        problems.append("callee of assign not found")
-                        return True
-                    c2, f2 = targs(callee.cls), targs(callee.full)
-                    tab = atab.get((c2[0] == f2[0], c2[1] == f2[1])) if len(c2) == 2 and len(f2) == 2 else None
-                    if tab is None:
-                        problems.append("no extracted sharing table for %s" % callee.full)
-                        return True
-                    srcrel = rel_.get(a0, {"elements": "shared", "indices": "shared"} if a0 == src else None)
-                    if srcrel is None:
-                        problems.append("assign from an untracked object")
-                        return True
-                    rel_[o] = {k: (srcrel[k] if tab[k] == "shared" else "fresh" if tab[k].startswith("fresh") else "?") for k in ("elements", "indices")}
-                    return True
-                if nm == "clone" and len(args) == 2 and a0 is not None:
-                    m = it.const_of(args[1])
-                    if m is None or m not in ctab:
-                        problems.append("clone with a mode that is not a constant under clone_mode == %s" % mode)
-                        return True
-                    srcrel = rel_.get(a0, {"elements": "shared", "indices": "shared"} if a0 == src else None)
-                    if srcrel is None:
-                        problems.append("clone from an untracked object")
-                        return True
-                    ci, ce = ctab[m]
-                    rel_[o] = {"indices": srcrel["indices"] if ci == "shared" else "fresh" if ci.startswith("fresh") else "?",
-                               "elements": srcrel["elements"] if ce == "shared" else "fresh" if ce.startswith("fresh") else "?"}
-                    return True
-                if nm == "move" and len(args) == 1 and a0 is not None:
-                    srcrel = rel_.get(a0)
-                    if srcrel is None:
-                        problems.append("move from an untracked object")
-                        return True
-                    rel_[o] = dict(srcrel)
-                    return True
-                if nm in ("clear",):
-                    rel_[o] = {"elements": "none", "indices": "none"}
-                    return True
-                return False
-
-            def ex(n):
-                """returns False when the path has returned"""
-                k = n.get("k")
-                if k == "Block":
-                    for s_ in n.get("s", []):
-                        if not ex(s_):
-                            return False
-                    return True
-                if k == "Null_":
-                    return True
-                if k == "Decl":
-                    for v in n.get("vars", []):
-                        t = L.short(fn.type(v.get("t")))
-                        if t == "Container" and not v.get("ref"):
-                            rel_["%s#%s" % (v["n"], v["d"])] = {"elements": "none", "indices": "none"}
-                        elif v.get("init") is not None and any(L.is_call(x) and L.short(x.get("ccls", "")) == "Container" and not x.get("cconst") for x in walk(v["init"])):
-                            problems.append("declaration %s at line %s" % (v["n"], n.get("l")))
-                    return True
-                if k == "If":
-                    if n.get("constexpr"):
-                        th, el = n.get("then"), n.get("else")
-                        if th is not None and th.get("k") == "Null_":
-                            return ex(el) if el is not None else True
-                        if el is not None and el.get("k") == "Null_":
-                            return ex(th)
-                        c = n["c"]
-                        cv = it.eval_cond(c)
-                        if cv is None and c.get("k") == "Ref" and c.get("v") is not None:
-                            cv = bool(int(c["v"]))
-                        if el is None and cv is True:
-                            return ex(th)
-                        if el is None and cv is False:
-                            return True
-                    v = it.eval_cond(n["c"])
-                    if v is True:
-                        return ex(n["then"])
-                    if v is False:
-                        return ex(n["else"]) if n.get("else") is not None else True
-                    problems.append("condition %s not decided by clone_mode == %s" % (render(n["c"])[:60], mode))
-                    return False
-                if k == "Return":
-                    return False
-                if k == "MCall":
-                    if call_effect(n):
-                        return True
-                    if n.get("cconst") or L.short(n.get("ccls", "")) != "Container":
-                        return True
-                    problems.append("call %s at line %s" % (render(n)[:60], n.get("l")))
-                    return True
-                if L.is_call(n) and n.get("callee") in ("FEAT::assertion",):
-                    return True
-                if L.is_call(n) and n.get("noreturn"):
-                    return False
-                problems.append("statement %s at line %s" % (render(n)[:60], n.get("l")))
-                return True
-
-            ex(fn.body)
-            got = rel_.get("this")
-            combo = "%s,%s" % ("sameDT" if same[0] else "diffDT", "sameIT" if same[1] else "diffIT")
-            if problems or got is None:
-                ck.incomplete("C02.clone-cross-type", "%s with clone_mode == %s: %s" % (L.fkey(fn), mode, "; ".join(problems) or "result never defined"))
-                continue
-            for kind, want in (("indices", want_i), ("elements", want_e)):
-                sub = "Container::clone<DT2,IT2>/CloneMode::%s/%s/%s" % (mode, combo, kind)
-                if want == "shared":
-                    ck.ob("C02.clone-cross-type", sub, True, "documented as shared: no independence required (extracted: %s)" % got[kind], fn.file, fn.line, trivial=True)
-                    continue
-                ok = got[kind] == "fresh"
-                if not ok:
-                    if ("C02.clone-cross-type", sub) in seen_fail:
-                        continue
-                    seen_fail.add(("C02.clone-cross-type", sub))
-                ck.ob("C02.clone-cross-type", sub, ok,
-                      "%s, clone_mode == %s: documented %s arrays %s; composed from assign (%s) and clone/move: the result's %s arrays are %s%s" % (
-                          fn.full, mode, kind, want, atab.get(same), kind, got[kind],
-                          "" if ok else " with the source -> the clone is not value-independent"),
-                      fn.file, fn.line, sample={"function": fn.full, "mode": mode, "array": kind, "documented": want, "composed": got[kind]})
-    need = {(True, False), (False, True), (False, False)}
-    if not need <= combos:
-        ck.incomplete("C02.clone-cross-type", "instantiations of the templated Container::clone missing for (same DT, same IT) in %s" % sorted(need - combos))
-
-
-def targs(s):
-    """top-level template arguments of the last <...> group of s"""
-    if not s.endswith(">"):
-        return []
-    depth = 0
-    i = len(s) - 1
-    while i >= 0:
-        if s[i] == ">":
-            depth += 1
-        elif s[i] == "<":
-            depth -= 1
-            if depth == 0:
-                break
-        i -= 1
-    inner = s[i + 1:-1]
-    out, cur, depth = [], "", 0
-    for ch in inner:
-        if ch == "," and depth == 0:
-            out.append(cur.strip())
-            cur = ""
-            continue
-        if ch in "<(":
-            depth += 1
-        elif ch in ">)":
-            depth -= 1
-        cur += ch
-    if cur.strip():
-        out.append(cur.strip())
-    return out
-
-
 def assign_rules(ck, fam, seen_fail):
     fns = [f for f in fam.functions() if f.name == "assign" and L.short(f.cls) == "Container" and len(f.params) == 1]
     combos = set()
@@ -1280,6 +1151,35 @@ def assign_rules(ck, fam, seen_fail):
         ck.incomplete("C02.convert-sharing", "instantiations of Container::assign missing for (same DT, same IT) in %s" % sorted(need - combos))
 
 
+def typestate_size_rules(ck, fam, seen_fail):
+    """size bookkeeping decided by the shared ownership/length interpreter (lib/lafem_rules, also used by C20): at every exit the
+    size vector has as many entries as its pointer vector, and a re-seated array slot gets the matching extent recorded"""
+    summaries = {}
+    for fn in fam.functions():
+        cases = L.interpret_cases(fam, fn, summaries)
+        if not any(it.touched or it.unknown for _, it in cases):
+            continue
+        key = L.fkey(fn)
+        merged = {}
+        for label, it in cases:
+            for u in it.unknown:
+                ck.incomplete("C02.size-pairing", "%s (%s): %s" % (key, fn.loc, u))
+            for (r, sub, ok, det, line) in it.obligations + L.exit_obligations(it):
+                if r == "size-vector-length":
+                    sub = sub + "/length"
+                elif r != "size-pairing":
+                    continue
+                k = (sub, line)
+                if k not in merged or (merged[k][0] and not ok):
+                    merged[k] = (ok, det)
+        for (sub, line), (ok, det) in merged.items():
+            if not ok:
+                if ("C02.size-pairing", key, sub) in seen_fail:
+                    continue
+                seen_fail.add(("C02.size-pairing", key, sub))
+            ck.ob("C02.size-pairing", "%s/%s" % (key, sub), ok, det, fn.file, line, trivial=det.startswith("undecided"))
+
+
 def pairing_rules(ck, fam, seen_fail):
     for fn in fam.functions():
         obs, unknown = L.pair_pushes(fam, fn)
@@ -1292,6 +1192,10 @@ def pairing_rules(ck, fam, seen_fail):
                     continue
                 seen_fail.add(("C02.size-pairing", key, sub))
             ck.ob("C02.size-pairing", "%s/%s" % (key, sub), ok, det, fn.file, line, trivial=trivial)
+
+
+def is_driver_tu(fx):
+    return bool(fx.tu) and fx.tu.endswith("c02_convert.cpp")
 
 
 def run(tier):
@@ -1329,10 +1233,13 @@ def run(tier):
             ck.incomplete("C02.E1.slot-role", msg)
         e1_rules(ck, fam, roles_tab, seen_fail)
         pairing_rules(ck, fam, seen_fail)
+        typestate_size_rules(ck, fam, seen_fail)
         extent_rules(ck, fam, seen_fail)
         banded_rules(ck, fam, fx, roles_tab, seen_fail)
         local_array_rules(ck, fam, seen_fail)
         cscr_kind_rules(ck, fam, fx, seen_fail)
+        if is_driver_tu(fx):
+            alias_kernel_rules(ck, fam, fx, seen_fail)
         is_driver = fx.tu.endswith("c02_convert.cpp")
         if is_driver:
             clone_rules(ck, fam, seen_fail)
@@ -1346,7 +1253,9 @@ def run(tier):
         "of Container::clone extracted by path-sensitive interpretation and compared with the enum documentation; sharing vs converting in "
         "Container::assign for the four (data type, index type) same/different combinations, composed with the clone table for the templated "
         "cross-type clone (promised-fresh arrays never alias the source); extents of arrays handed to result constructors; the band-offset "
-        "convention offset = col - row + rows - 1 at every statement of it in banded code (siblings must agree with the class documentation). "
+        "convention offset = col - row + rows - 1 at every statement of it in banded code (siblings must agree with the class documentation); "
+        "size-vector/pointer-vector length agreement and re-seated slot extents (shared interpreter with C20); loop-variable subscripts of locally "
+        "built arrays; CSCR used-row kinds; alias safety of the transpose kernel for r == x. "
         "Not decided: kind-correctness and completeness of the "
         "conversion loops themselves beyond these (CSR<-Banded/BCSR coverage of row_ptr, transpose counting sort, permute; DESIGN clause 3 / E2), value equality after chains of "
         "operations, sortedness of produced column indices, cross-type CSR<-Banded (does not instantiate for DT2_!=DT_, a compile error, not a wrong result).")
